@@ -308,7 +308,11 @@ func prepare(needRace, needPlain bool) *build {
 			// Workers learn that goroutines of the code under test may be native:
 			// they then leave out what is EXPECTED to panic (a panic on a native
 			// goroutine of the library cannot be recovered and would kill them).
-			os.Setenv("SIM_NATIVE", "1")
+			if mode.name != "" {
+				os.Setenv("SIM_NATIVE", "1")
+			} else {
+				os.Unsetenv("SIM_NATIVE")
+			}
 			if mode.name != "" {
 				fmt.Printf("simcheck: instrumentation degraded to %q because: %s\n", mode.name, firstLines(lastErr, 6))
 			}
